@@ -155,7 +155,7 @@ def obs_events(chk):
             N = int(rng.choice([32, 64, 128]))
             x = zoo.signal(rng, N, dt == 'complex', 'arma')
             nfft = int(rng.choice([64, 65, 128]))
-            sampling = float(rng.choice([1.0, 4.0, 0.5]))
+            sampling = [4.0, 0.5, 1.0][rep % 3] if rep < 3 else float(rng.choice([1.0, 4.0, 0.5]))
             for name in ('pburg', 'pyule', 'pcovar', 'pmodcovar', 'parma', 'pma'):
                 ev = {'ev': 'class', 'cls': name, 'dt': dt, 'nfft': nfft}
                 ok, obj = call_guard(zoo.build, name, x.copy(), nfft, sampling)
